@@ -183,7 +183,7 @@ def gen_jobs_case(rng, thorough):
 
 def gen_caller(rng, kind):
     """the real GridSearch.fit / Sensitivity.run on cores processes, steered like a jobs case"""
-    cores = rng.choice([2, 3, 3, 4])
+    cores = rng.choice([2, 3, 3, 3, 4, 4])
     nw = cores - 1
     if kind == "grid_fit":
         n, grid = rng.choice([(2, ["a"]), (3, ["a"]), (4, ["a"]), (2, ["a", "b"]), (3, ["b", "a"])])
@@ -192,8 +192,13 @@ def gen_caller(rng, kind):
         n, grid = rng.choice([2, 3, 4, 5]), None
         total = n
     fail = sorted(rng.sample(range(total), rng.choice([1, 1, 2]))) if rng.random() < 0.4 else []
-    takes = [rng.randrange(nw) for _ in range(total + rng.choice([0, 1, nw]))]
-    sched = interleave_polls(rng, [["T", w] for w in takes], nw, rng.choice(["late-main", "eager-main", "mixed", "mixed"]))
+    extra = rng.choice([0, 1, nw])
+    if rng.random() < 0.5:               # crossed: the later worker takes the earlier job, so results arrive out of job order
+        takes = [nw - 1 - (i % nw) for i in range(total + extra)]
+    else:
+        takes = [rng.randrange(nw) for _ in range(total + extra)]
+    # jobs leave the shared queue in job order; results only arrive out of order when the main loop looks late
+    sched = interleave_polls(rng, [["T", w] for w in takes], nw, rng.choice(["late-main", "late-main", "eager-main", "mixed"]))
     c = {"kind": kind, "n": n, "cores": cores, "fail": fail, "sched": sched}
     if grid:
         c["grid"] = grid
@@ -260,6 +265,8 @@ def gen_cases(ctx):
     cases += [gen_caller(rng, "grid_fit") for _ in range(8 * k)]
     cases += [gen_caller(rng, "sens_fit") for _ in range(8 * k)]
     cases += [gen_sneakier(rng) for _ in range(5 * k)]
+    cases += [{"kind": "emcee_run", "procs": rng.choice([2, 3, 4]), "walkers": rng.choice([6, 8, 10]), "steps": rng.choice([3, 5]),
+               "seed": rng.randrange(10 ** 6)} for _ in range(3 * k)]
     # quick jobs, free-running, many calls: does run_jobs always return?
     cases.append({"kind": "jobs_race", "cores": 3, "jobs": 3, "repeat": 100})
     if thorough:
@@ -350,6 +357,10 @@ def oracle(c, r):
             serial = [i for i, (kd, _) in enumerate(stream[:drawn]) if kd == "ok"]
             if r["ks"] != serial:
                 out.append(("accepted points %s, serial evaluation accepts %s" % (r["ks"], serial), cls))
+        return out
+    if k == "emcee_run":
+        if r["mismatched"] or r["stored"] != c["walkers"] * c["steps"]:
+            out.append(("%d of %d stored emcee log probabilities are not the value at their own walker position" % (r["mismatched"], r["stored"]), []))
         return out
     if k == "smap_twofit":
         if not r["raised"] or r["raised"][0] != "AssertionError" or r["yields"] or any(r["evals"]) or any(r["pend"]) or any(r["resq"]):
@@ -547,6 +558,8 @@ def nontrivial(c):
         return c["cores"] >= 3
     if k == "sneakier":
         return c["procs"] >= 2
+    if k == "emcee_run":
+        return True
     return False
 
 
@@ -559,7 +572,7 @@ def describe(c):
         return {"kind": k, "n": c["n"], "total": c["total"], "stream": len(c["stream"])}
     if k == "emcee":
         return {"kind": k, "procs": c["procs"], "walkers": len(c["vals"])}
-    if k in ("jobs_race", "smap_twofit"):
+    if k in ("jobs_race", "smap_twofit", "emcee_run"):
         return dict(c)
     if k in ("grid_fit", "sens_fit"):
         return {"kind": k, "cores": c["cores"], "n": c["n"], "grid": c.get("grid"), "failing_cells": c["fail"]}
@@ -598,29 +611,36 @@ def shards(cases, n):
 
 def run(ctx):
     ctx.rule = ("cases are abstract programs: (smap) 1-3 batches of 0-8 jobs on one SneakyPool of 1-4 processes with a schedule of "
-                "worker completions F w and main-loop polls P per batch; (init) samples_from_model with n_cores 1-4 over a scripted "
-                "stream of points (value / resample / exception) with one schedule per batch; (emcee) compute_log_prob through "
-                "pool.map; (jobs) Process.run_jobs with 1-3 workers and a schedule of job takes T w and polls; (*_free) the same "
-                "entry points free-running under the OS scheduler with sleeps inside the jobs (oracle only). A case is non-trivial "
-                "when at least two workers and at least two jobs/points are involved; distinct = distinct abstract program")
+                "worker completions F w and turns of the main process P per batch, arguments as tuples, plain numbers, or tuples that "
+                "hold the pool's fitness object at position 0/1/2; (init) samples_from_model with n_cores 1-4 over a scripted stream "
+                "of points (value / resample / exception), one schedule per batch; (emcee) compute_log_prob through pool.map; (jobs) "
+                "Process.run_jobs with 1-3 workers and a schedule of job takes T w and polls; (grid_fit / sens_fit) the real "
+                "GridSearch.fit / Sensitivity.run on 2-4 cores with steered workers against number_of_cores=1, failing cells "
+                "included; (*_free, emcee_run, jobs_race, sneakier) the same entry points and SneakierPool free-running under the OS "
+                "scheduler (sleeps, 1.2 MB results), oracle only. A case is non-trivial when at least two workers and two jobs are "
+                "involved; distinct = distinct abstract program, where programs of the ordered blocking map that differ only in "
+                "their P actions (no-ops there) count once")
     ctx.trusted = [
         "Coq 8.16.1 kernel incl. vm_compute",
-        "correspondence harness c14.py / impl/c14_impl.py: schedule steering by per-worker semaphore gates inside the evaluated "
-        "functions and by proxies around the parent-side queue objects (every queue.empty() call of the code under test is one poll "
-        "tick); the real multiprocessing queues, worker processes and job classes of /repo are used unchanged",
+        "correspondence harness c14.py / impl/c14_impl.py: schedule steering by per-worker semaphore gates (inside the evaluated "
+        "functions for SneakyPool, in front of the shared job queue for run_jobs) and by proxies around the parent-side result "
+        "queues: a blocking get() of the code under test advances the schedule until that worker has delivered, a get(timeout) "
+        "expires at the next P, every queue.empty() call of run_jobs' collection loop is one poll tick; the real multiprocessing "
+        "queues, worker processes, job classes, GridSearch, Sensitivity and ResultBuilder of /repo are used unchanged",
         "modelled not verified: multiprocessing.Queue is FIFO per queue and loses nothing; fork start method; pickling of jobs/results",
     ]
     ctx.assumptions = [
-        "schedules are sequentially consistent interleavings of atomic worker steps (take/evaluate/put) and main-loop polls; the "
-        "delay of the parent's queue feeder thread is modelled for run_jobs (action V: jobs become visible) and shown to break "
-        "termination (C14_jobs_termination_refuted, reproduced free-running by the jobs_race cases); the check-then-get race "
-        "between two workers of run_jobs is observed (jobs_race) but not modelled; the steered correspondence always runs with "
-        "visible jobs",
-        "a worker killed by a BaseException / an unpicklable result never delivers: the busy-wait loops then spin forever "
-        "(termination of SneakyPool.map is proved for schedules in which every job is eventually evaluated: C14_map_terminates)",
-        "a function that RETURNS an Exception instance is treated by both pools as if it had raised it (not generated)",
-        "order theorems of SneakyPool.map hold only per worker / for one process (C14_map_order_refuted is the finding); the "
-        "ordered variant is proved for the repaired map (map_fix) of proposed_fixes/C14-map-order.diff",
+        "schedules are sequentially consistent interleavings of atomic worker steps (take/evaluate/put) and turns of the main "
+        "process; steered runs execute one worker step at a time (true concurrency only in the free-running cases); the delay of "
+        "the parent's queue feeder thread is modelled for run_jobs (action V); the steered correspondence runs with visible jobs",
+        "out of scope (named, not modelled, not generated): a worker process that dies (BaseException, kill) or an unpicklable result "
+        "-- the parent's blocking get() then waits for ever; a caller that abandons the generator of SneakyPool.map / run_jobs "
+        "before it is exhausted (left-over results are handed to the next map: Witness stale_item_is_attributed_to_the_next_call; "
+        "the only in-tree caller of map, the initializer's zip, exhausts it); a function that RETURNS an Exception instance is "
+        "treated as if it had raised it; MPI pools; the real Emcee search (its fit fails in this environment with IndexError in "
+        "emcee.autocorr for any number of cores) -- emcee is driven through EnsembleSampler.sample with the pool instead",
+        "which exception a map with several failing inputs raises: the LAST failing input's (model, theorem and oracle agree); "
+        "serial evaluation would stop at the first",
     ]
     ctx.notes["map_model"] = "fixed" if MAP_FIXED else "current (completion order)"
     import time as _t
@@ -696,17 +716,20 @@ def run(ctx):
 
 
 MANIFEST = {
-    "text": "Coq 8.16 transition-system models of SneakyPool.map, Process.run_jobs and the initializer's batching, with theorems for "
-            "every schedule (list of worker completions / job takes and main-loop polls): results are a permutation of the serial "
-            "results, each job evaluated exactly once, no item left in any queue after a call returns or raises (for every sequence "
-            "of batches), exceptions reported iff a job of the batch failed, termination of map once every job is evaluated, results "
-            "keyed by job number (ResultBuilder / sorted) reproduce serial order; positional order of SneakyPool.map and termination "
-            "of run_jobs are refuted by machine-checked witnesses (two known findings, reproduced on the real code), order is proved "
-            "per worker / for one process, and in full for the proposed repairs; plus vm_compute correspondence of the model with the "
-            "real pools under deterministically steered schedules and a direct property oracle (also on free-running pools)",
-    "note": "Trusted: Coq kernel + vm_compute, the steering harness (semaphore gates in the evaluated functions, proxies around the "
-            "parent-side queues; code under test unmodified), FIFO/no-loss semantics of multiprocessing.Queue. Schedules are atomic "
-            "interleavings; worker death, the check-then-get race of run_jobs workers and MPI pools are named, not modelled. Two "
-            "known findings: sneaky-map-completion-order, run-jobs-startup-race (fixes proposed in proposed_fixes/C14-*.diff).",
+    "text": "Coq 8.16 transition-system models of SneakyPool.map (ordered blocking collection), Process.run_jobs (sentinel worker "
+            "loop) and the initializer's batching, with theorems for every schedule (list of worker completions / job takes and "
+            "turns of the main process): map returns exactly the serial results by position, each job evaluated exactly once, no "
+            "item left in any queue after a call returns or raises, for every sequence of batches; map and run_jobs terminate "
+            "once every job has been evaluated / taken; run_jobs delivers a sub-multiset of the jobs, every result once when no "
+            "job fails, an exception of one of its jobs otherwise; results keyed by job number (ResultBuilder / sorted) reproduce "
+            "serial order; the initializer returns the valid points of a stream prefix with their own values for any number of "
+            "cores. vm_compute correspondence of the model with the real pools and with the real GridSearch.fit / Sensitivity.run "
+            "under deterministically steered schedules, plus a direct property oracle (also free-running: emcee sampling, 1.2 MB "
+            "results, run_jobs stress, SneakierPool). The behaviour before the two repairs is kept as refuted statements.",
+    "note": "Trusted: Coq kernel + vm_compute, the steering harness (semaphore gates, proxies around the parent-side queues; code "
+            "under test unmodified), FIFO/no-loss semantics of multiprocessing.Queue. Schedules are atomic interleavings; worker "
+            "death, abandoned generators and MPI pools are out of scope (stated in the evidence). Known findings: "
+            "grid-parallel-failing-cell (fix proposed), sneakier-two-pools-constructed; fixed: sneaky-map-completion-order, "
+            "run-jobs-startup-race.",
     "technique": "machine-checked proof in Coq (schedule-quantified transition systems) + vm_compute correspondence under steered schedules",
 }
